@@ -377,7 +377,7 @@ fn in_domain(v: &Value) -> bool {
 }
 
 pub fn gen(out: &mut Out, thorough: bool, focus: &str) {
-    let n = if thorough { 20000 } else { 3000 };
+    let n = if thorough { 200000 } else { 3000 };
     if focus == "C16" {
         let mut lines: Vec<(String, String)> = Vec::new();
         for i in 0..n {
